@@ -45,6 +45,8 @@ def gen(run):
 def oracle(c, ans):
     if c.get("cascade"):
         return cascade_oracle(c, ans)
+    if c.get("mixed"):
+        return mixed_oracle(c, ans)
     v = c["v"]
     k = answer_kind(ans)
     if k in ("panic", "crash"):
@@ -109,7 +111,31 @@ def label_dependent_cases(run):
             body = [("push", G.climb([("num", K), "-", ("lbl", "L")])), ("push", ("lbl", "L"))] + fill + [("label", "L"), ("op", "jumpdest", None)]
             cases.append(mk_case(body, "shrinking", cascade=[(-1, K), (1, 0)]))
             cases.append(mk_case([("defi", "m", [], body), ("macro", "m", [])], "shrinking-in-macro", cascade=[(-1, K), (1, 0)]))
+    # constants next to label-dependent pushes: every constant keeps ITS minimal width
+    rng = run.rng
+    for _ in range(40 if run.tier == "thorough" else 12):
+        consts = [rng.choice([0, 1, 255, 256, 65535, 65536, 2 ** 64, 2 ** 128 - 1, 2 ** 255]) for _ in range(rng.randrange(2, 5))]
+        lead = [("push", ("lbl", "L"))] * rng.randrange(1, 3)
+        body = lead + [("push", ("num", c)) for c in consts] + [("label", "L"), ("op", "jumpdest", None)]
+        if rng.random() < 0.5:
+            body = [("push", ("num", consts[0]))] + body
+            consts = [consts[0]] + consts
+        cases.append(mk_case(body, "constants-after-label-push", mixed=consts))
     return cases
+
+
+def mixed_oracle(c, ans):
+    if answer_kind(ans) != "ok":
+        return [f"a well-formed program of auto-sized pushes failed: {ans[:100]}"] if answer_kind(ans) not in ("panic", "crash") else []
+    items = G.decode(answer_bytes(ans))
+    pushes = [(code - 0x5F, int.from_bytes(imm, "big")) for o, code, imm in items if 0x60 <= code <= 0x7F]
+    got = [(w, v) for w, v in pushes if v in c["mixed"] and G.width_of(v) <= w]
+    problems = []
+    for v in c["mixed"]:
+        if (G.width_of(v), v) not in pushes:
+            problems.append(f"constant {v} is not pushed at its minimal width {G.width_of(v)}: pushes are {pushes}")
+            break
+    return problems
 
 
 def check(run):
